@@ -31,6 +31,7 @@ class CheckRun:
         self.t0 = time.time()
         self.findings = core.load_known_findings()
         self.known_seen: dict[str, dict] = {}
+        self.known_hits: dict[str, int] = {}
         self.violations: list[dict] = []
         self.harness_errors: list[str] = []
         print(f"# check {prop} tier={self.tier} VERIF_SEED={self.seed}",
@@ -41,8 +42,9 @@ class CheckRun:
         """Record a violation.  Returns 'known' or 'new'."""
         kf = core.match_known(self.prop, key, self.findings)
         if kf is not None:
-            ident = core.digest(kf["key"])
+            ident = core.digest([kf.get("key"), kf.get("what")])
             self.known_seen.setdefault(ident, kf)
+            self.known_hits[ident] = self.known_hits.get(ident, 0) + 1
             return "known"
         self.violations.append(
             {"key": key, "what": what, "payload": payload or {}}
@@ -56,8 +58,9 @@ class CheckRun:
     def finish(self, coverage: dict, assumptions: list[str],
                level: str = "exploration"):
         wall = time.time() - self.t0
-        for kf in self.known_seen.values():
-            print(f"KNOWN-FINDING: property={self.prop} {kf['what']}")
+        for ident, kf in self.known_seen.items():
+            print(f"KNOWN-FINDING: property={self.prop} {kf['what']} "
+                  f"[{self.known_hits[ident]} listed input(s) reproduced]")
         reported = 0
         seen_keys = set()
         for v in self.violations:
